@@ -479,7 +479,7 @@ def run(tier, replay=None):
     hjs = os.path.join(bindir, "hlim")      # hjs with batched worker threads (same protocol)
     corrupt = os.environ.get("C08_CORRUPT")          # binding demonstration: corrupt one expectation
     states = trans = 0
-    n_sc = n_out = n_nontriv = n_fired = n_unlimited = 0
+    n_sc = n_out = n_nontriv = n_fired = n_unlimited = n_async = 0
     fails = {}                                        # signature -> (size, detail)
     drift = {}
     routes_seen, forms_seen, kinds_seen = set(), set(), set()
@@ -506,7 +506,12 @@ def run(tier, replay=None):
         jobs = []
         for i, k in enumerate(keys):
             sc = groups[k]["sc"]
-            jobs.append({"id": "%s/%d" % (fam, i), "cfg": hjs_cfg(sc), "steps": render(sc)})
+            steps = render(sc)
+            if i % 5 == 4:       # engine-configuration dimension: the same script through Script::evaluate_async_with_budget
+                steps[0]["via"] = "async"
+                steps[0]["budget"] = 7
+                n_async += 1
+            jobs.append({"id": "%s/%d" % (fam, i), "cfg": hjs_cfg(sc), "steps": steps})
         results = run_parallel(hjs, jobs)
         suspects = []
         for i, k in enumerate(keys):
@@ -582,7 +587,7 @@ def run(tier, replay=None):
                   distinct_nontrivial=n_nontriv, scenarios_with_limit_hit=n_fired, scenarios_under_all_limits=n_unlimited,
                   allowed_outcomes=n_out, routes=len(routes_seen), loop_forms=len(forms_seen - {"none"}),
                   limit_kinds=sorted(kinds_seen), chain_owners=sorted(owners_seen), print_kinds_observed=len(events_seen),
-                  failing_signatures=len(fails), known_signatures_hit=sorted(set(fails) & {k.get("signature") for k in ck.known}),
+                  scenarios_via_evaluate_async=n_async, failing_signatures=len(fails), known_signatures_hit=sorted(set(fails) & {k.get("signature") for k in ck.known}),
                   rule="one replay per TLC-enumerated scenario x limit triple (three host steps each: eval, run_jobs, call); "
                        "non-trivial = in the model's exact outcome a limit fires while a try/catch/finally wrapper is open on the "
                        "dead chain or the chain crosses a native re-entry / job / continuation route")
